@@ -208,7 +208,9 @@ Fixpoint build (reg : registry) (s : schema) (t : option gtype) (om : bool) {str
 (* ---- New returning nil ---- *)
 Fixpoint new_nil (c : codec) {struct c} : bool :=
   match c with
-  | CNull | CUnion _ => true
+  | CNull => true
+  | CUnion cs => (fix go (l : list codec) {struct l} : bool :=
+                    match l with [] => true | x :: l' => new_nil x && go l' end) cs
   | CUnionOne c' _ => new_nil c'
   | CCustom _ c' => new_nil c'
   | _ => false
@@ -312,12 +314,11 @@ Fixpoint c_read (fuel : nat) (c : codec) (dest : gval) (bs : bytes) {struct c} :
       | _ => Panic
       end
   | CMap vc vz _ =>
-      (* valueCodec.New is called per entry, after the key has been read *)
+      (* values are decoded into valueCodec.New(), or a zero value when that is nil *)
       let go (kvs0 : list (bytes * gval)) :=
         obind (blocks false (fun acc b0 =>
                  obind (string_read b0) (fun k r =>
-                   if new_nil vc then Panic
-                   else obind (c_read fuel vc vz r) (fun v r' => Done (acc ++ [(k, v)]) r'))) fuel kvs0 bs)
+                   obind (c_read fuel vc vz r) (fun v r' => Done (acc ++ [(k, v)]) r'))) fuel kvs0 bs)
               (fun kvs r => Done (VMap kvs) r) in
       match dest with
       | VMap kvs0 => go kvs0
